@@ -2,6 +2,7 @@
 """tools/mut_prompt.py <Cxx> <tag> <n>  — creates the worktree /tmp/mut/<tag> and prints the prompt for a seeding agent."""
 import json, os, subprocess, sys
 pid, tag, n = sys.argv[1], sys.argv[2], int(sys.argv[3])
+round2 = len(sys.argv) > 4 and sys.argv[4] == "round2"
 wt = f"/tmp/mut/{tag}"
 out = f"/tmp/mut/{tag}_out"
 os.makedirs("/tmp/mut", exist_ok=True)
@@ -22,4 +23,6 @@ For each change i = 1..{n} create the directory {out}/m<i>/ containing:
 - `patch.diff` — `git diff` of the change against the worktree's HEAD (apply-able with `git apply`),
 - `demo.rs` — a small Rust integration test file (to be dropped into `tests/`) with one or more `#[test]`s that FAIL with the change and PASS without it, using only the crate's public API (it may build input files in memory — e.g. with the `zip` crate, which is a dependency, for xlsx/xlsb/ods, or hand-made bytes — or use files under `tests/`),
 - `meta.json` — {{"property":"{pid}","summary": what the change does, "needs": what specific input/sequence is needed for it to manifest, "ran": the exact commands you ran and their results}}.
-Verify all of that yourself for every change: apply the patch, run the full test suite (must match the baseline), run the demo (must fail); revert (`git checkout -- . && git clean -fdq tests/`), run the demo on the clean tree (must pass). Leave the worktree clean (no uncommitted changes, demo files removed) when you finish. Reply with a short summary table of the changes.""")
+Verify all of that yourself for every change: apply the patch, run the full test suite (must match the baseline), run the demo (must fail); revert (`git checkout -- . && git clean -fdq tests/`), run the demo on the clean tree (must pass). Leave the worktree clean (no uncommitted changes, demo files removed) when you finish. Reply with a short summary table of the changes.""" + ("""
+
+IMPORTANT — this is a SECOND round. An earlier batch of seeded changes for this property (mostly single-site slips: an off-by-one, a swapped flag, a dropped reset, a wrong mask, a shortcut for a special case) was detected within seconds by the project's randomised differential checks, which generate well-formed inputs of every documented shape with randomised physical encodings and compare every observable result. Aim higher this time: changes whose effect shows only when SEVERAL rarely combined conditions meet (e.g. a particular record/element order AND a boundary value AND a second sheet/part; state carried from one call or one sheet to the next; behaviour that differs only for the n-th occurrence; interaction with an option set earlier; inputs that are legal but that no common writer produces), caching or "optimisation" changes that are right on first use and wrong on reuse, changes that are right for every input smaller than some threshold, and two- or three-site changes whose sites are individually harmless. Still realistic, still compiling, still passing the whole existing suite, each with a failing/passing demonstration.""" if round2 else ""))
